@@ -77,7 +77,7 @@ DRIVERS = {
     'split_iter_value': '''
   | sep :: has :: ms :: xs => encR encLL (split_iter_value (fun a b => a == b) xs sep (optOf has ms))''',
     'split_iter_none': '''
-  | has :: ms :: xs => encR encLL (split_iter_none (fun a b => a == b) xs (optOf has ms))''',
+  | has :: ms :: xs => encR encLL (split_iter_none (fun x => x == -999983) xs (optOf has ms))''',
 }
 
 
@@ -105,7 +105,10 @@ def _cases(name, rng, quick):
     elif name in ('split_iter_func', 'split_iter_none'):
         for _ in range(n):
             has = rng.randint(0, 1)
-            out.append([has, rng.choice([-1, 0, 0, 1, 2, 3, 5]) if has else 0] + _items(rng, hi=rng.choice([1, 3, 5])))
+            xs = _items(rng, hi=rng.choice([1, 3, 5]))
+            if name == 'split_iter_none':
+                xs = [NONE_ITEM if x == 0 else x for x in xs]
+            out.append([has, rng.choice([-1, 0, 0, 1, 2, 3, 5]) if has else 0] + xs)
     elif name == 'split_iter_value':
         for _ in range(n):
             has = rng.randint(0, 1)
@@ -194,7 +197,8 @@ def run(pids, quick=False, seed=0, verbose=True):
     arms = []
     for n, sp in enumerate(live):
         name = sp['lean_name']
-        arms.append('def run%d : List Int → String%s\n  | _ => "bad"\n' % (n, DRIVERS[name]))
+        arms.append('def run%d : List Int → String%s\n%s' % (
+            n, DRIVERS[name], '' if DRIVERS[name].strip().startswith('| xs =>') else '  | _ => "bad"\n'))
         for toks in _cases(name, rng, quick):
             lines.append(' '.join(map(str, [n] + _lean_tokens(name, toks))))
             meta.append((name, toks))
